@@ -3,7 +3,10 @@ package main
 func init() {
 	propCfgs["C07"] = propConfig{SweepPkgs: []string{"/pkg/compaction", "/pkg/engine/storage", "/pkg/engine", "/pkg/engine/compaction", "/pkg/stats",
 		"/pkg/sstable", "/pkg/transaction", "/pkg/memtable", "/pkg/bloom_filter", "/pkg/config"}}
-	for _, id := range []string{"C03", "C04", "C17", "C06", "C07", "C16"} {
+	// C15: a self-deadlock (re-acquiring a mutex the caller already holds) stalls every later client operation: the
+	// replication package is swept for the lock obligations (non re-entrancy, balanced, unlock of a held lock)
+	propCfgs["C15"] = propConfig{SweepPkgs: []string{"/pkg/replication"}}
+	for _, id := range []string{"C03", "C04", "C17", "C06", "C07", "C16", "C15"} {
 		c := propCfgs[id]
 		c.Locks = true
 		propCfgs[id] = c
